@@ -56,22 +56,26 @@ Proof.
   rewrite zlen_app, L. unfold kt_shape. destruct incl; [fold R|unfold zlen at 1; cbn [length]]; lia.
 Qed.
 
-(* ---- update ---- *)
+(* ---- update ---- (two-pass text of /repo b9311d6) *)
+Lemma zlen_ltb_0 {A} (l : list A) : (zlen l <? 0) = false.
+Proof. apply Z.ltb_ge. apply zlen_nonneg. Qed.
+
 Theorem gen_update_nil (self : ktz) (data : vec) : ktensor_update self [] data = Ok self.
-Proof. rewrite update_bridge. reflexivity. Qed.
+Proof. rewrite update_bridge. unfold H_update. cbn [asc H_needed bind]. rewrite zlen_ltb_0. reflexivity. Qed.
 
 Theorem gen_update_rejects_unsorted (self : ktz) (modes data : vec) : asc modes = false -> ktensor_update self modes data = Err.
 Proof. intros H. rewrite update_bridge. unfold H_update. now rewrite H. Qed.
 
-Lemma asc_false_iff_descent (l : vec) : asc l = false <-> exists pre x y post, l = pre ++ x :: y :: post /\ y < x.
+(* asc is STRICT since b9311d6: a repeated mode is rejected as well *)
+Lemma asc_false_iff_descent (l : vec) : asc l = false <-> exists pre x y post, l = pre ++ x :: y :: post /\ y <= x.
 Proof.
   split.
   - induction l as [|x l IH]; [discriminate|]. destruct l as [|y t]; [discriminate|]. cbn [asc].
-    destruct (Z.leb_spec x y) as [H|H]; cbn [andb].
+    destruct (Z.ltb_spec x y) as [H|H]; cbn [andb].
     + intros E. destruct (IH E) as (pre & a & b & post & -> & Hab). exists (x :: pre), a, b, post. split; [reflexivity|exact Hab].
     + intros _. exists [], x, y, t. split; [reflexivity|exact H].
   - intros (pre & x & y & post & -> & H). induction pre as [|a pre IH]; cbn [app asc].
-    + replace (x <=? y) with false by (symmetry; apply Z.leb_gt; exact H). reflexivity.
+    + replace (x <? y) with false by (symmetry; apply Z.ltb_ge; exact H). reflexivity.
     + destruct (pre ++ x :: y :: post) eqn:E; [destruct pre; discriminate|]. rewrite IH. apply andb_false_r.
 Qed.
 
@@ -79,8 +83,8 @@ Qed.
 Theorem gen_update_weights (self : ktz) (data : vec) : zlen (kt_weights self) <= zlen data ->
   ktensor_update self [-1] data = Ok (mkkt (firstn (length (kt_weights self)) data) (kt_factors self)).
 Proof.
-  intros H. rewrite update_bridge. unfold H_update, H_update_loop, H_update_step, H_chunk. cbn [asc fst snd bind].
-  replace (-1 =? -1) with true by reflexivity.
+  intros H. rewrite update_bridge. unfold H_update, H_needed, H_need_step, H_update_loop, H_update_step, H_chunk. cbn [asc fst snd bind].
+  replace (-1 =? -1) with true by reflexivity. cbn [bind].
   replace (zlen data <? 0 + zlen (kt_weights self)) with false by (symmetry; apply Z.ltb_ge; lia).
   cbn [bind fst]. unfold kt_set_weights. f_equal. f_equal.
   rewrite py_slice_in by (pose proof (zlen_nonneg (kt_weights self)); lia).
@@ -94,9 +98,11 @@ Theorem gen_update_factor (self : ktz) (k : nat) (data : vec) : (k < length (kt_
   ktensor_update self [Z.of_nat k] data =
   Ok (mkkt (kt_weights self) (upd (kt_factors self) k (np_reshape2 OrdF (firstn (Z.to_nat (m * R)) data) m R))).
 Proof.
-  intros Hk m R H. subst m R. rewrite update_bridge. unfold H_update, H_update_loop, H_update_step, H_chunk. cbn [asc fst snd bind].
+  intros Hk m R H. subst m R. rewrite update_bridge. unfold H_update, H_needed, H_need_step, H_update_loop, H_update_step, H_chunk. cbn [asc fst snd bind].
   replace (Z.of_nat k =? -1) with false by (symmetry; apply Z.eqb_neq; lia).
+  replace (0 <=? Z.of_nat k) with true by (symmetry; apply Z.leb_le; lia).
   replace (Z.of_nat k <? zlen (kt_factors self)) with true by (symmetry; apply Z.ltb_lt; unfold zlen; lia).
+  cbn [andb bind].
   rewrite w4_idx_ok_nat. replace (k <? length (kt_factors self))%nat with true by (symmetry; apply Nat.ltb_lt; exact Hk).
   rewrite znth_nat. set (m := np_nrows (nth k (kt_factors self) [])) in *. set (R := zlen (kt_weights self)) in *.
   match goal with |- context [zlen data <? 0 + ?mm * _] => assert (Em : mm = m) by reflexivity; rewrite !Em; clear Em end.
